@@ -20,6 +20,7 @@ inductive Ev where
   | skipped (k : Nat)               -- k accepted bytes were taken out of the output buffer (Skip)
   | f2ret (res : String) (same : Bool)
   | fired
+  | tickTaken (slotReady : Bool)    -- the flusher's select took the timer case; was writeTrigger ready as well?
   | closed                          -- a closer (user or hang-up) won closeBy
   | panic (who : String)
   deriving Repr
@@ -43,6 +44,7 @@ structure Acc where
   n : Nat := 0
   mode : String := "u"
   fired : Bool := false
+  slotAtTick : Bool := false
   closedSeen : Bool := false
   timedOutBefore : Bool := false   -- some earlier Flush/Write on this connection returned ErrWriteTimeout
   callsAfterTimeout : Nat := 0     -- Flush/Write calls issued after an ErrWriteTimeout (known findings D9/D9b start here)
@@ -66,12 +68,13 @@ def badRun (a : Acc) (msg : String) : Acc :=
 
 def onEv (a : Acc) : Ev → Acc
   | .call idx op n mode =>
-      { a with inCall := true, idx := idx, op := op, n := n, mode := mode, fired := false,
+      { a with inCall := true, idx := idx, op := op, n := n, mode := mode, fired := false, slotAtTick := false,
                callsAfterTimeout := if a.timedOutBefore && op != "M" then a.callsAfterTimeout + 1 else a.callsAfterTimeout }
   | .submitted d => { a with sub := a.sub + d }
   | .accepted k => { a with acc := a.acc + k }
   | .skipped k => { a with skp := a.skp + k }
   | .fired => { a with fired := true }
+  | .tickTaken r => { a with slotAtTick := r }
   | .closed => { a with closedSeen := true }
   | .panic who => badRun a s!"panic in {who} (call {a.idx} {a.op}{a.n}{a.mode})"
   | .f2ret res same => Id.run do
@@ -97,6 +100,7 @@ def onEv (a : Acc) : Ev → Acc
         else if res == "wtimeout" then
           if !(timed a.mode || a.mode == "x") then a := bad a "ErrWriteTimeout without a timeout or deadline"
           if timed a.mode && !a.fired then a := bad a "ErrWriteTimeout although the timer had not fired"
+          if a.slotAtTick then a := bad a "ErrWriteTimeout although the completion / close token was already in writeTrigger when the timer case was taken"
           a := { a with timedOutBefore := true }
         else if res == "closed" then
           if !a.closedSeen then a := bad a "ErrConnClosed before any close"
